@@ -1,7 +1,7 @@
 // BOUNDED stand-in for C10 / C13 (labelled bounded): content written through the real HTTP front end and the real nu `.append`
 // command is read back byte for byte under the reported hash; malformed requests get 4xx responses and change nothing.
 // Bound: body sizes {0, 1, 4095, 4096, 8191, 8192, 8193, 20000, 100000} sent in 1..4 pieces; nu byte streams in 1, 3 and 40 pieces;
-// a fixed list of malformed requests.
+// the same with chunked transfer encoding (empty, and 10000 bytes in 4 chunks); a fixed list of malformed requests.
 use std::time::Duration;
 use tokio::io::{AsyncReadExt, AsyncWriteExt};
 use xs::store::{Frame, Store, ZERO_CONTEXT};
@@ -65,6 +65,21 @@ async fn http_append_and_cas_are_byte_exact() {
     }
     let resp = raw_pieces(&sock, vec![b"POST /cas HTTP/1.1\r\nhost: x\r\ncontent-length: 0\r\n\r\n".to_vec()], 800).await;
     assert!(resp.starts_with(b"HTTP/1.1 400"), "C10: empty POST /cas must be rejected");
+    // the same with chunked transfer encoding (what `xs append` and the client library send): an empty chunked body is still "no body";
+    // chunks of any size are stored byte for byte
+    let resp = raw_pieces(&sock, vec![b"POST /chunked0 HTTP/1.1\r\nhost: x\r\ntransfer-encoding: chunked\r\n\r\n".to_vec(), b"0\r\n\r\n".to_vec()], 1500).await;
+    assert!(resp.starts_with(b"HTTP/1.1 200"), "C10: chunked empty append: {:?}", String::from_utf8_lossy(&resp[..resp.len().min(60)]));
+    let frame: Frame = serde_json::from_slice(&body_of(&resp)).expect("frame json");
+    assert!(frame.hash.is_none(), "C10: an append with an empty chunked body must yield a frame without a hash, got {:?}", frame.hash);
+    let body = pattern(10000);
+    let mut pieces = vec![b"POST /chunked1 HTTP/1.1\r\nhost: x\r\ntransfer-encoding: chunked\r\n\r\n".to_vec()];
+    for c in body.chunks(3333) { let mut p = format!("{:x}\r\n", c.len()).into_bytes(); p.extend_from_slice(c); p.extend_from_slice(b"\r\n"); pieces.push(p); }
+    pieces.push(b"0\r\n\r\n".to_vec());
+    let resp = raw_pieces(&sock, pieces, 1500).await;
+    assert!(resp.starts_with(b"HTTP/1.1 200"), "C10: chunked append");
+    let frame: Frame = serde_json::from_slice(&body_of(&resp)).expect("frame json");
+    let content = store.cas_read(&frame.hash.clone().expect("C10: chunked body must give a hash")).await.expect("C10: chunked content retrievable");
+    assert!(content == body, "C10: chunked body of 10000 bytes stored as {} bytes", content.len());
 }
 
 #[tokio::test(flavor = "multi_thread", worker_threads = 4)]
